@@ -1,8 +1,10 @@
 #!/bin/bash
-# runs every check's quick (or $1) tier on /repo, prints one summary line per check
-TIER="${1:-quick}"
-cd /verif
-for i in $(seq -w 1 20); do
-  s=$(date +%s); ./run.sh check C$i $TIER > /tmp/probe/all_C$i.out 2>&1; rc=$?; e=$(date +%s)
-  echo "C$i rc=$rc wall=$((e-s))s known=$(grep -c '^KNOWN-FINDING' /tmp/probe/all_C$i.out) viol=$(grep -c '^VIOLATION' /tmp/probe/all_C$i.out)"
+# runs every check's quick (or $1) tier on /repo, prints one summary line per check; logs under ./run_all_logs/ (relative to this tree)
+TIER="${1:-quick}"; shift
+cd "$(dirname "$0")/.."
+mkdir -p run_all_logs
+LIST="${@:-$(seq -w 1 20)}"
+for i in $LIST; do
+  s=$(date +%s); ./run.sh check C$i $TIER > run_all_logs/C${i}_$TIER.out 2>&1; rc=$?; e=$(date +%s)
+  echo "C$i $TIER rc=$rc wall=$((e-s))s known=$(grep -c '^KNOWN-FINDING' run_all_logs/C${i}_$TIER.out) viol=$(grep -c '^VIOLATION' run_all_logs/C${i}_$TIER.out) $(grep -E '^C[0-9]+ ' run_all_logs/C${i}_$TIER.out | cut -c1-230)"
 done
